@@ -1255,6 +1255,13 @@ inline void run_step(JW& j, const Step& st, std::unique_ptr<Document>& doc_out, 
         j.e();
     }
     run_actions(j, st, *doc, d, workdir, idx);
+    if (wants("symtab")) {
+        // every symbol the dump has named so far (frames of the document and binders met in expression trees) with its type
+        j.k("symtab").o();
+        for (auto& kv : d.ids)
+            j.k(kv.second).str(d.type_str(kv.first.get_type()));
+        j.e();
+    }
     doc_out = std::move(doc);
 }
 
